@@ -10,6 +10,7 @@ use std::collections::{BTreeMap, BTreeSet};
 
 pub fn run(cx: &mut Ctx) {
     crate::g1::run(cx, "C04.G1");
+    empty_fstring_field(cx);
     let g = match tables::load_grammar(&cx.repo) {
         Ok(g) => g,
         Err(e) => return cx.anchor_missing("C04", &e),
@@ -630,11 +631,7 @@ fn numeric_shape(cx: &mut Ctx) {
             cx.fail(rule, &format!("{}/{}", rule, name), &lx.loc(f), &format!("the `{}` check is missing or no longer precedes the consumption", name));
         }
     }
-    if t.contains("letstart_is_zero=self.window[0]==Some('0');") && t.contains("ifstart_is_zero&&!value.is_zero(){returnErr(LexicalError{error:LexicalErrorType::OtherError(\"Invalid Token\".to_owned()),location:self.get_pos()});}") {
-        cx.ok(rule, "leading-zero decimal literal with non-zero value rejected");
-    } else {
-        cx.fail(rule, &format!("{}/leading-zero", rule), &lx.loc(f), "the leading-zero check is missing or altered");
-    }
+    leading_zero_rule(cx, rule);
     match lr::lexer_method(&lx, "lex_number_radix") {
         Some(r) if radix_error_mapped(&sm::tsc(&r.block)) => cx.ok(rule, "radix literal: from_str_radix error (incl. empty digit run) mapped to a LexicalError at start_pos"),
         Some(r) => cx.fail(rule, &format!("{}/radix-error", rule), &lx.loc(r), "lex_number_radix does not map the big-integer parse error to a LexicalError at the literal's start"),
@@ -750,4 +747,78 @@ fn radix_error_mapped(t: &str) -> bool {
     let e = regex::escape(&c2[1]);
     let re = format!(r#"BigInt::from_str_radix\(&{text},radix\)\.map_err\(\|{e}\|LexicalError\{{error:LexicalErrorType::OtherError\(format!\("\{{(?:{e}:\?\}}"|:\?\}}",{e})\)\),location:start_pos\}}\)\?"#, text = text, e = e);
     regex::Regex::new(&re).map_or(false, |r| r.is_match(t))
+}
+
+
+/// Leading zeros: `0` followed by more digits is rejected exactly for decimal INTEGER literals with a non-zero value
+/// (`007` is an error; `00`, `0_0`, `007j`, `00.5`, `01e1` are legal). Read from the exits of lex_normal_number:
+/// the "Invalid Token" exit exists, is taken under `start_is_zero && !value.is_zero()` with `start_is_zero` the test
+/// that the literal's first character is `0`, and lies on the branch that produces `Tok::Int` -- not on a path that
+/// produces a float or an imaginary literal.
+pub fn leading_zero_rule(cx: &mut Ctx, rule: &str) {
+    let Ok(lx) = sm::load(&cx.repo, "parser/src/lexer.rs") else { return cx.anchor_missing(rule, "parser/src/lexer.rs") };
+    let Some(f) = lr::lexer_method(&lx, "lex_normal_number") else { return cx.anchor_missing(rule, "lex_normal_number") };
+    let t = sm::tsx(&f.block);
+    let ex = sm::exits(&f.block);
+    let zero_def = t.contains("letstart_is_zero=self.window[0]==Some('0');");
+    let bad: Vec<&sm::Exit> = ex.iter().filter(|e| e.result.contains("\"Invalid Token\"")).collect();
+    let ints: Vec<&sm::Exit> = ex.iter().filter(|e| e.result.contains("Tok::Int")).collect();
+    let others_clean = ex.iter().filter(|e| e.result.contains("Tok::Complex") || e.result.contains("Tok::Float")).all(|e| !e.conds.iter().any(|c| c.contains("start_is_zero")));
+    let placed = bad.len() == 1
+        && ints.len() == 1
+        && bad[0].conds.last().map_or(false, |c| c == "start_is_zero&&!value.is_zero()")
+        && bad[0].conds[..bad[0].conds.len() - 1] == ints[0].conds[..]
+        && t.contains("letvalue=value_text.parse::<BigInt>().unwrap();");
+    if zero_def && placed && others_clean {
+        cx.ok(rule, "leading-zero decimal literal with non-zero value rejected, on the integer path only");
+    } else {
+        let why = if !zero_def {
+            "start_is_zero is not `self.window[0] == Some('0')` taken before the digits are consumed"
+        } else if !others_clean {
+            "a float / imaginary literal is produced on a path that tests for leading zeros (`007j`, `00.5` are legal)"
+        } else {
+            "the `Invalid Token` exit is not taken exactly under `start_is_zero && !value.is_zero()` on the path that produces Tok::Int"
+        };
+        cx.fail(rule, &format!("{}/leading-zero", rule), &lx.loc(f), &format!("the leading-zero check is missing or altered: {}", why));
+    }
+}
+
+
+/// S2: an f-string replacement field without an expression is rejected.
+fn empty_fstring_field(cx: &mut Ctx) {
+    let rule = "C04.S2";
+    cx.rule(rule, "an f-string replacement field whose expression is empty or only white space is rejected (`f'{}'`, `f'{ }'`, `f'{ !r}'`): in parse_formatted_value both arms that end the expression text — the conversion `!` and the closing `}` — test `expression.trim().is_empty()` and return EmptyExpression before the text is used");
+    cx.floor(rule, 2);
+    let Ok(src) = sm::load(&cx.repo, "parser/src/string.rs") else { return cx.anchor_missing(rule, "parser/src/string.rs") };
+    let Some(f) = src.method("StringParser", "parse_formatted_value") else { return cx.anchor_missing(rule, "parse_formatted_value") };
+    let mut found = 0;
+    sm::for_each_expr_in_block(&f.block, |e| {
+        if let syn::Expr::Match(m) = e {
+            if sm::tsc(&m.expr) != "ch" {
+                return;
+            }
+            for a in &m.arms {
+                let pat = sm::tsc(&a.pat);
+                let which = if pat == "'}'" && a.guard.is_none() {
+                    "}"
+                } else if pat == "'!'" && a.guard.as_ref().map_or(false, |g| sm::tsc(&g.1).contains("delimiters.is_empty()")) {
+                    "!"
+                } else {
+                    continue;
+                };
+                found += 1;
+                let t = sm::tsc(&a.body);
+                let guard = t.find("ifexpression.trim().is_empty(){returnErr(FStringError::new(EmptyExpression,");
+                let first_use = [t.find("parse_fstring_expr("), t.find("conversion="), t.find("self.next_char()")].into_iter().flatten().min();
+                match (guard, first_use) {
+                    (Some(g), Some(u)) if g < u => cx.ok(rule, &format!("arm `{}`: empty / blank expression rejected before the text is used", which)),
+                    (Some(_), None) => cx.ok(rule, &format!("arm `{}`: empty / blank expression rejected", which)),
+                    _ => cx.fail(rule, &format!("{}/{}", rule, which), &src.loc(&a.pat), &format!("the `{}` arm of parse_formatted_value does not reject an expression that is empty after trimming white space before using it", which)),
+                }
+            }
+        }
+    });
+    if found != 2 {
+        cx.fail(rule, &format!("{}/arms", rule), &src.loc(f), &format!("{} of the 2 arms that end the expression text were found", found));
+    }
 }
